@@ -1116,12 +1116,18 @@ void ThreadPool::scheduleBulkImpl(size_t count, Generator&& gen) {
     DISPENSO_VERIF_POINT("TpBulkLoadCheck", this);
     ssize_t curWork = workRemaining_.load(std::memory_order_relaxed);
     ssize_t loadFactor = poolLoadFactor_.load(std::memory_order_relaxed);
-    if (curWork > loadFactor) {
+    if (curWork > loadFactor && detail::PerPoolPerThreadInfo::canInlineSchedule()) {
+      // Like the single-task paths, inline execution under load takes part in the shared
+      // kMaxInlineDepth limit: a task that bulk-schedules its successor must not nest without bound.
+      detail::InlineDepthGuard depthGuard;
       gen(i)();
       ++i;
     } else {
+      // (room <= 0 only when the pool is over its load factor but the inline depth is used up: queue
+      // a chunk anyway)
       ssize_t room = loadFactor - curWork;
-      size_t toEnqueue = std::min({count - i, chunkSize, static_cast<size_t>(room)});
+      size_t toEnqueue = std::min(
+          {count - i, chunkSize, room > 0 ? static_cast<size_t>(room) : chunkSize});
       if (toEnqueue == 0) {
         toEnqueue = 1;
       }
